@@ -1,6 +1,6 @@
 (* Property C16: statement parsing is compositional: context never changes a statement's parse.
-   Proved by computation in the kernel on the pipeline model, for every ordered pair of the 143
-   statement templates (20449 pairs): if each parses without diagnostics on its own, their
+   Proved by computation in the kernel on the pipeline model, for every ordered pair of the 146
+   statement templates (21316 pairs): if each parses without diagnostics on its own, their
    concatenation parses without diagnostics and its statement list is exactly the statements of
    the first followed by those of the second (same node kinds, same texts), at top level and
    inside a block body -- outside four listed known-finding classes, which have witnesses:
@@ -44,7 +44,7 @@ Theorem C16_empty_after_item_refuted :
   composes_block T_decl_int T_empty = true.
 Proof. exact empty_after_item_refuted. Qed.
 
-Example C16_nonvacuous : (20449 <=? List.length id_pairs)%nat = true /\
+Example C16_nonvacuous : (21316 <=? List.length id_pairs)%nat = true /\
   (6551 <=? List.length (filter (fun '(i, j) => negb (k_c16 i j)) id_pairs))%nat = true.
 Proof. vm_compute. auto. Qed.
 
